@@ -528,4 +528,6 @@ long verif_enumerate(int, int, int, verif::EnumReport &) { return 0; }
 void verif_corpus(std::vector<std::vector<uint8_t>> &out) {
     out.push_back({0, 0, 0, 4, 0, 0, 1, 1, 0, 2, 0, 0, 4, 0, 0, 0, 3, 0});   // create, append to C, move-construct, append to the moved-from stream
     out.push_back({0, 0, 0, 8, 0, 0, 1, 3, 65, 24, 0, 0, 5, 29, 0, 0});
+    // extended table (first byte >= 80): create two streams, grow one past the in-object capacity, then one extended operation each
+    for (uint8_t op = 32; op < (uint8_t)kNumOps; op++) out.push_back({(uint8_t)(80 + 5), 0, 0, 0, 0, 1, 1, 8, 0, 0, 1, 3, 65, op, 0, 1, 1, 2, 3, 4, 5, 6, 7, 8, 44, 0, 0});
 }
